@@ -12,6 +12,7 @@ import numpy as np
 
 ALG_NAMES = {}
 ORIG = {}
+MISSING = []  # optional seams that this tree does not offer
 
 
 class Tap:
@@ -84,15 +85,20 @@ def install():
             CA.CONSISTENCY_ALG_FCTS[i] = shaving_wrapper
     SHA.bound_consistency_algorithm = bc_wrapper  # inner passes of shaving
 
-    ORIG["shave_bound"] = SHA.shave_bound
+    # optional seam: a tree whose shaving algorithm has no separate probe function is still checked at the level of
+    # the whole algorithm (stack height, contained in BC, no solution lost); the probe-level oracles are skipped
+    if getattr(SHA, "shave_bound", None) is not None:
+        ORIG["shave_bound"] = SHA.shave_bound
 
-    def shave_bound_wrapper(*args):
-        L = Tap.listener
-        if L is None:
-            return ORIG["shave_bound"](*args)
-        return L.around_shave_bound(ORIG["shave_bound"], args)
+        def shave_bound_wrapper(*args):
+            L = Tap.listener
+            if L is None:
+                return ORIG["shave_bound"](*args)
+            return L.around_shave_bound(ORIG["shave_bound"], args)
 
-    SHA.shave_bound = shave_bound_wrapper
+        SHA.shave_bound = shave_bound_wrapper
+    else:
+        MISSING.append("shaving_consistency_algorithm.shave_bound")
 
     # --- heuristics
     ORIG["var_h"] = list(H.VAR_HEURISTIC_FCTS)
@@ -118,7 +124,8 @@ def install():
         return L.around_backtrack(ORIG["backtrack"], args, "shaving")
 
     BS.backtrack = backtrack_wrapper
-    SHA.backtrack = backtrack_wrapper_sh
+    if hasattr(SHA, "backtrack"):
+        SHA.backtrack = backtrack_wrapper_sh
     Tap.installed = True
 
 
